@@ -282,7 +282,16 @@ def _out(res, out, prim):
     if not _is_sym(out):
         _promote(out, prim)
     if tuple(out._arr.shape) != tuple(np.shape(res)):
-        raise Unmodelled("out= buffer needs resizing (%s): %s vs %s" % (prim, out._arr.shape, np.shape(res)))
+        if out._arr.size != int(np.prod(np.shape(res))):
+            raise Unmodelled("out= buffer needs resizing (%s): %s vs %s" % (prim, out._arr.shape, np.shape(res)))
+        # torch resizes an out= buffer of another shape (deprecated, with a warning): same storage when the element count
+        # agrees; the buffer object takes the result's shape
+        ASSUMED.add("out= buffer of another shape with the same number of elements is resized in place (torch's deprecated behaviour)")
+        _write(out, prim)
+        flat = out._arr.reshape(-1)
+        flat[...] = np.asarray(res, dtype=object).reshape(-1)
+        out._arr = flat.reshape(np.shape(res))
+        return out
     return _assign(out, res, prim)
 
 
